@@ -455,6 +455,11 @@ type c04Scenario struct {
 	wantFrames [][]byte // every payload handed to dispatchFrame, in order
 	wantDrop   string   // "eof" (none: we close at the end), "timeout", "protocol"
 	timed      bool
+	// localWrite: during the first scripted gap of at least T8 the APPLICATION sends a data message on the same
+	// connection (S99F1, filtered out of the wire comparison): a local write — which brackets itself with write
+	// deadlines — must not disturb the receiver's pending T8 (after seeded change C04f-1: SetWriteDeadline
+	// implemented with SetDeadline).
+	localWrite bool
 }
 
 func (s *c04Scenario) stream() []byte {
@@ -1163,7 +1168,16 @@ func c04RunConnScaled(s *c04Scenario, passive bool, wantDeliveries, wantWire int
 	}()
 	for _, g := range s.segs {
 		if g.gapNs > 0 {
-			time.Sleep(time.Duration(g.gapNs) * time.Duration(scale))
+			gap := time.Duration(g.gapNs) * time.Duration(scale)
+			if s.localWrite && g.gapNs >= c04T8Ns {
+				time.Sleep(gap / 5)
+				ctx, cancel := context.WithTimeout(context.Background(), time.Second)
+				_ = conn.SendDataMessageAsync(ctx, 99, 1, false, secs2.NewBinaryItem([]byte{1, 2, 3}))
+				cancel()
+				time.Sleep(gap - gap/5)
+			} else {
+				time.Sleep(gap)
+			}
 		}
 		if len(g.data) == 0 {
 			continue
@@ -1183,7 +1197,7 @@ func c04RunConnScaled(s *c04Scenario, passive bool, wantDeliveries, wantWire int
 			if l < 10 || len(w) < 4+l {
 				break
 			}
-			if !(w[9] == 9 && l == 10) { // Separate.req farewell of the teardown
+			if !(w[9] == 9 && l == 10) && !(w[9] == 0 && w[6]&0x7f == 99) { // Separate.req farewell of the teardown; the harness's own S99F1
 				fs = append(fs, hexs(w[:4+l]))
 			}
 			w = w[4+l:]
@@ -1287,6 +1301,9 @@ func c04RealConnection(c *Ctx, allocSafe bool) {
 		scen = append(scen, &c04Scenario{tag: "conn-inframe-gap-short", segs: []c04Seg{{0, two[:cut]}, {c04ShortNs, two[cut:]}}, timed: true})
 	}
 	scen = append(scen, &c04Scenario{tag: "conn-idle-gap-long", segs: []c04Seg{{c04LongNs, two[:n0]}, {c04LongNs, two[n0:]}}, timed: true})
+	for _, cut := range []int{4, 9, n0 + 4, n0 + 10} {
+		scen = append(scen, &c04Scenario{tag: "conn-inframe-gap-long-local-write", segs: []c04Seg{{0, two[:cut]}, {c04LongNs, two[cut:]}}, timed: true, localWrite: true})
+	}
 
 	lines := make([]string, len(scen))
 	for i, s := range scen {
@@ -1379,7 +1396,11 @@ func c04RealConnection(c *Ctx, allocSafe bool) {
 			msg = check(i)
 		}
 		if msg != "" {
-			c.Violate("correspondence", "conn-"+s.tag, msg, s.replay())
+			kind := "correspondence"
+			if strings.HasPrefix(s.tag, "conn-inframe-gap-long") || strings.HasPrefix(s.tag, "conn-inframe-gap-short") || s.tag == "conn-idle-gap-long" {
+				kind = "property" // these expectations are the property's own clauses (in-frame gap > T8 drops; shorter gaps and idle gaps never do)
+			}
+			c.Violate(kind, "conn-"+s.tag, msg, s.replay())
 		}
 		if i%23 == 0 {
 			c.Sample(map[string]any{"kind": "connection", "scenario": s.replay(), "deliveries": len(outs[i].deliveries), "wire_frames": len(outs[i].wire), "dropped": outs[i].dropped})
